@@ -21,7 +21,7 @@ def describe(tier):
                 "[fc](sub);  at every sub-expression  ((sub));  at every U/O/X node the operand swap;  each transformed expression x ALL 3^k "
                 "assignments; plus for every assignment with UNKNOWN whose outcome is definite all 2^u refinements. Oracle (implementation vs "
                 "itself): the transformed expression raises nothing and has the same state / (fulfilled) as the base; refinements keep the "
-                "definite outcome. In addition the transformed expressions mix operator spellings (letter vs symbol), so that 'redundant "
+                "definite outcome; for bases with 4 leaves and distinct keys (quick tier) the refinement relation only. In addition the transformed expressions mix operator spellings (letter vs symbol), so that 'redundant "
                 "brackets' is meant with respect to the documented precedence. Non-trivial = (transformed expression, assignment) pairs "
                 "with >= 2 leaves in the base.",
         "bounds": {"sizes": BOUNDS[tier]},
@@ -32,6 +32,10 @@ def describe(tier):
 
 def plan(tier, seed):
     items = []
+    if tier == "quick":
+        # one size beyond the full transformation bound: UNKNOWN refinement only (no extra expressions to parse), distinct keys
+        for p in range(64):
+            items.append({"n": 4, "lab": "distinct", "part": p, "parts": 64, "seed": seed, "only": ["refine"]})
     for n, lab in BOUNDS[tier]:
         parts = {1: 1, 2: 4, 3: 48, 4: 768}[n]
         for p in range(parts):
@@ -96,7 +100,7 @@ def _states(expr, rckeys):
     return res
 
 
-def check_base(base_ast, seed, only=None):
+def check_base(base_ast, seed, only=None, names=None):
     """only = (name, path) restricts to one transformation (replay)"""
     X.init()
     pools = X.pools(seed)
@@ -130,6 +134,8 @@ def check_base(base_ast, seed, only=None):
     for name, path, tast in transformations(base_ast, pools):
         if only is not None and (only[0] != name or tuple(only[1]) != tuple(path)):
             continue
+        if names is not None and name not in names:
+            continue
         for sidx, spl in enumerate((spell, alt, alt2)):
             if sidx > 0 and name != "brackets":
                 continue
@@ -162,7 +168,7 @@ def run_item(item):
         i += 1
         if i % item["parts"] != item["part"]:
             continue
-        vs, pairs = check_base(ast, item["seed"])
+        vs, pairs = check_base(ast, item["seed"], names=item.get("only"))
         r.evaluations += pairs
         r.states += pairs
         r.transitions += 2 * pairs
